@@ -8,7 +8,7 @@ is re-checked in isolation (common text + that one theorem) so that the report n
 the first.  Exit status 0 iff all theorems are proved and closed."""
 import os, re, subprocess, sys
 
-COQ_LASSO = os.environ.get("LASSO_COQ_DIR", "/verif/coq")
+COQ_LASSO = os.environ.get("VERIF_COQ_DIR") or os.environ.get("LASSO_COQ_DIR") or "/verif/coq"
 FORBIDDEN = re.compile(r"\b(Axiom|Parameter|Conjecture|Admitted|admit|Variable|Hypothesis)\b")
 
 
@@ -56,28 +56,43 @@ def main():
             print("%s %s" % ("OPEN-ASSUMPTIONS" if bad else "PROVED", n))
         if bad: print(out)
         sys.exit(1 if bad else 0)
-    # isolate
+    # isolate: every theorem on its own (in parallel), so that the report names every failing theorem, not only the first.
+    # Pass 1: common text + the theorem.  Pass 2 (only for theorems that failed pass 1): additionally the theorems that
+    # passed, in file order, before it -- a corollary of a proved theorem is then proved, one of a failed theorem fails.
     print("-- %s does not compile as a whole; first error:" % fname)
-    print("\n".join("   " + l for l in out.strip().splitlines()[-8:]))
-    ok_all = False
+    print("\n".join("   " + l for l in out.strip().splitlines()[-6:]))
+    from concurrent.futures import ThreadPoolExecutor
     base = os.path.splitext(fname)[0]
-    common = ""
+    jobs = []; common = ""
     for c in chunks:
         if c[0] == "common":
-            # Print Assumptions lines of other theorems would fail in isolation: drop them
             common += re.sub(r"^Print Assumptions.*$", "", c[1], flags=re.M)
-            continue
-        tmp = "%s_iso_%s.v" % (base, c[1])
-        open(os.path.join(workdir, tmp), "w").write(common + c[2] + "\nPrint Assumptions %s.\n" % c[1])
-        rc1, out1 = coqc(workdir, tmp)
-        if rc1 == 0 and "Closed under the global context" in out1:
-            print("PROVED %s" % c[1])
-            common += c[2]          # later theorems may use it
-        elif rc1 == 0:
-            print("OPEN-ASSUMPTIONS %s" % c[1])
         else:
-            err = [l for l in out1.strip().splitlines() if l.strip()]
-            print("FAILED %s    (%s)" % (c[1], " ".join(err[-2:])[:160]))
+            jobs.append((c[1], common, c[2]))
+
+    def check(job, extra="", tag="iso"):
+        name, com, thm = job
+        tmp = "%s_%s_%s.v" % (base, tag, name)
+        open(os.path.join(workdir, tmp), "w").write(com + extra + thm + "\nPrint Assumptions %s.\n" % name)
+        rc1, out1 = coqc(workdir, tmp)
+        if rc1 == 0 and "Closed under the global context" in out1: return "PROVED", ""
+        if rc1 == 0: return "OPEN-ASSUMPTIONS", ""
+        err = [l for l in out1.strip().splitlines() if l.strip()]
+        return "FAILED", " ".join(err[-2:])[:160]
+    with ThreadPoolExecutor(max_workers=int(os.environ.get("PROP_JOBS", "8"))) as ex:
+        res = list(ex.map(check, jobs))
+    proved_text = ""
+    for k, job in enumerate(jobs):
+        st, msg = res[k]
+        if st == "FAILED" and proved_text:
+            st, msg = check(job, proved_text, "iso2")
+        if st == "PROVED":
+            proved_text += job[2]
+            print("PROVED %s" % job[0])
+        elif st == "OPEN-ASSUMPTIONS":
+            print("OPEN-ASSUMPTIONS %s" % job[0])
+        else:
+            print("FAILED %s    (%s)" % (job[0], msg))
     sys.exit(1)
 
 
